@@ -169,6 +169,27 @@ CHECKS["C07"] = dict(
           "run after it (C07_Atomic), and the probe must be present (C07_LaterEventsProceed)."),
     technique="fault enumeration over every storage mutation (engine error in-process, process kill in a forked child + reopen); dumps judged by TLC against KvIndex.tla")
 
+AUTH_NOTE = ("Trusted: TLC; coincurve for signing the AUTH events; the clock is injected (nostr_relay.auth.time). Unpredictability of "
+             "secrets.token_hex is not decidable here: only shape, pairwise distinctness (TLC evaluates it over 5 000 / 50 000 issued "
+             "challenges) and independence of remote address and frozen clock. Payload classes are a grammar, not all byte strings.")
+CHECKS["C15"] = dict(
+    cat="model_checking", ref="DESIGN.md §5 C15", note=AUTH_NOTE,
+    text=("Auth.tla states when an AUTH payload must be accepted, must be refused, and what is left open (exactly 600 s, a good and a "
+          "bad instance of one tag); TLC checks C15_OnlyValidAuth, C15_FailedAuthKeepsIdentity, C15_NoCrossReplay over the whole "
+          "payload grammar (MC_Auth). Every single and pairwise deviation from a valid payload (and a seeded sample of the product) "
+          "is concretised into a real signed event and sent to Authenticator.authenticate under both relay_urls configurations; "
+          "seeded sequences of attempts on two connections with save/query probes run through web.start_client on both backends; "
+          "TLC judges every decision and every probe (Auth_Trace.tla)."),
+    technique="TLA+ Auth.tla model-checked by TLC; payload grammar concretised and run on the real Authenticator and handler; decisions validated by TLC")
+CHECKS["C14"] = dict(
+    cat="model_checking", ref="DESIGN.md §5 C14", note=AUTH_NOTE,
+    text=("Auth.tla's C14_RoleCheck (an action is performed iff the connection's roles - anonymous if unauthenticated - intersect the "
+          "configured roles) is evaluated by TLC on the full can_do matrix (16 configurations x 17 token role sets x 2 actions), on "
+          "save (EVENT) and query (REQ) probes through web.start_client on both backends after sequences of AUTH attempts, on role "
+          "assignment sequences (C14_RolesReadBack, both backends) and on every delivery under the whitelist output validator, stored "
+          "and live (C14_OutputValidated)."),
+    technique="TLA+ Auth.tla evaluated by TLC on the exhaustive role matrix and on recorded probes / deliveries of the real handler on both backends")
+
 NOT_YET = {}
 
 
